@@ -142,7 +142,14 @@ where
             Ok(v) => Ok(v),
             Err(p) => {
                 verif_rt::release_deferred();
-                Err(verif_rt::sched::panic_text(&p))
+                let t = verif_rt::sched::panic_text(&p);
+                if t.contains("Cannot allocate memory") || t.contains("OutOfMemory") {
+                    // the simulator itself ran out of a resource (coroutine
+                    // stacks / mappings): a harness error, never a verdict
+                    eprintln!("HARNESS-ERROR: simulator resource exhaustion: {t}");
+                    std::process::exit(2);
+                }
+                Err(t)
             }
         }
     })
